@@ -5,6 +5,7 @@ import hashlib
 import itertools
 import json
 import multiprocessing as mp
+from .par import pmap
 import random
 
 from . import defs as D
@@ -93,6 +94,5 @@ def _job(job):
 
 def graph_groups(defs, nperm=8, seed=0, langs=("yaql", "jinja")):
     jobs = [(d, langs[i % len(langs)], nperm, seed + i) for i, d in enumerate(defs)]
-    with mp.Pool(16) as pool:
-        outs = pool.map(_job, jobs, chunksize=4)
+    outs = pmap(_job, jobs)
     return [o for o in outs if "error" not in o], [o for o in outs if "error" in o]
